@@ -12,6 +12,9 @@
 (*   "src" call yields Tag(b,"s",<<1>>), .., Tag(b,"s",<<ms[b]>>)          *)
 (* and are handed over in one form (SplitSem.tla): bare elements, one-     *)
 (* element tuples or explicit FillComputeSeq / FillRequestSeq objects.     *)
+(* prerun: Split.run has been used on the object before (the harness       *)
+(* resets the elements): run works on per-run copies and leaves the        *)
+(* object as it was.                                                       *)
 (* The machine fills branch by branch (one action per seq.fill), like the  *)
 (* loops in the code; the properties compare with the documented meaning.  *)
 (* The methods may be called in any order the type allows: fill after      *)
@@ -26,19 +29,22 @@ VARIABLES kind, nb, ms,      \* scenario: common kind, number of branches, resul
           zip,               \* TRUE: the branches are wrapped in Zip, FALSE: in Split
           form,              \* how the branches are given: "el" | "tup" | "obj"
           zipf,              \* Zip(fields=..): "none" | "list" | "str"  (results are namedtuples)
+          prerun,            \* TRUE: the Split has been run over a flow before its methods are used
           k,                 \* next value to fill
           cur,               \* branch being filled with value k (0: between fills)
           col,               \* per branch: values collected (since last request / reset for fr)
           hist,              \* operations so far: <<"f", v>> | <<"c">> | <<"r">> | <<"x">> (reset) | <<"call">>
           outs               \* results of each compute / request / call
-scn == <<kind, nb, ms, zip, form, zipf>>
-vars == <<kind, nb, ms, zip, form, zipf, k, cur, col, hist, outs>>
+scn == <<kind, nb, ms, zip, form, zipf, prerun>>
+vars == <<kind, nb, ms, zip, form, zipf, prerun, k, cur, col, hist, outs>>
 
 Init == /\ kind \in {"fc", "fr", "src"} /\ nb \in 1..MaxBr
         /\ ms \in [1..nb -> 0..MaxM] /\ zip \in BOOLEAN
-        /\ form \in {"el", "tup", "obj"} /\ zipf \in {"none", "list", "str"}
-        /\ (kind = "src" => ~zip /\ form = "el")
+        /\ form \in {"el", "tup", "obj", "sub"} /\ zipf \in {"none", "list", "str"} /\ prerun \in BOOLEAN
+        /\ (kind = "src" => ~zip /\ form \in {"el", "sub"})        \* "sub": instances of a subclass of Source
+        /\ (kind # "src" => form # "sub")
         /\ (form # "el" => nb <= 2 /\ zipf = "none")
+        /\ (prerun => ~zip /\ kind # "src" /\ form = "el" /\ nb <= 2)
         /\ (zipf # "none" => zip /\ nb <= 2)
         /\ k = 0 /\ cur = 0 /\ col = [b \in 1..nb |-> <<>>] /\ hist = <<>> /\ outs = <<>>
 
@@ -105,6 +111,6 @@ RequestAccounts == (kind = "fr" /\ ~zip /\ cur = 0) =>
 Repeatable == (NTerm = 2 /\ hist[Len(hist)][1] \in {"c", "call"} /\ hist[Len(hist) - 1][1] \in {"c", "call"})
                  => outs[Len(outs)] = outs[Len(outs) - 1]
 Terminal == cur = 0 /\ (Terminated \/ (kind = "fr" /\ (Len(outs) = 3 \/ k = MaxN)))
-Emitted == Terminal => PrintT(ToJson([kind |-> kind, nb |-> nb, ms |-> ms, zip |-> zip, form |-> form, zipf |-> zipf,
+Emitted == Terminal => PrintT(ToJson([kind |-> kind, nb |-> nb, ms |-> ms, zip |-> zip, form |-> form, zipf |-> zipf, prerun |-> prerun,
                                       hist |-> hist, outs |-> outs]))
 =============================================================================
